@@ -155,14 +155,29 @@ def run(eng, rep) -> None:
         rep.undecided("R05.1", builder.file, builder.qual, "loop over the layout", "signal construction is not inside a for loop")
         return
     whole = isinstance(loop.iter, ast.Name) and loop.iter.id == enc_param and not Defs(builder.node).values(enc_param)
-    rep.check(whole, "R05.1", builder.file, builder.qual, "for %s in %s" % (norm(loop.target), norm(loop.iter, 40)), "iterates the whole layout", "signals are built from %s, not from the whole layout list" % norm(loop.iter, 40))
+    piece_from_pair = None
+    if isinstance(loop.iter, ast.Call) and isinstance(loop.target, ast.Tuple) and all(isinstance(t_, ast.Name) for t_ in loop.target.elts) and not Defs(builder.node).values(enc_param):
+        fn_ = dotted(loop.iter.func)
+        if fn_ == "enumerate" and len(loop.iter.args) >= 1 and isinstance(loop.iter.args[0], ast.Name) and loop.iter.args[0].id == enc_param and len(loop.target.elts) == 2:
+            piece_from_pair, whole = loop.target.elts[1].id, True
+        elif fn_ == "zip" and len(loop.iter.args) == len(loop.target.elts):
+            for i_, a_ in enumerate(loop.iter.args):
+                if isinstance(a_, ast.Name) and a_.id == enc_param:
+                    piece_from_pair = loop.target.elts[i_].id
+    if piece_from_pair is not None and not whole:
+        rep.undecided("R05.1", builder.file, builder.qual, "for %s in %s" % (norm(loop.target), norm(loop.iter, 40)), "the layout is walked in step with another sequence (zip stops at the shorter one); that every leaf is visited is not decided")
+    else:
+        rep.check(whole, "R05.1", builder.file, builder.qual, "for %s in %s" % (norm(loop.target), norm(loop.iter, 40)), "iterates the whole layout", "signals are built from %s, not from the whole layout list" % norm(loop.iter, 40))
     direct = [st for st in loop.body if any(x is sig_ctor for x in ast.walk(st))]
     uncond = len(direct) == 1 and isinstance(direct[0], (ast.Expr, ast.Assign)) and not any(isinstance(x, (ast.Continue, ast.Break, ast.Return)) for st in loop.body for x in ast.walk(st))
     rep.check(uncond, "R05.1", builder.file, builder.qual, norm(direct[0], 50) if direct else "construction", "one signal per leaf, unconditionally", "a leaf can be skipped or the loop left early: not every layout leaf gets a signal")
     appended = isinstance(direct[0], ast.Expr) and isinstance(direct[0].value, ast.Call) and isinstance(direct[0].value.func, ast.Attribute) and direct[0].value.func.attr == "append" if direct else False
     if not appended:
         rep.undecided("R05.1", builder.file, builder.qual, "signals.append(CanSignal(...))", "collection idiom not recognised")
-    piece = loop.target.id if isinstance(loop.target, ast.Name) else None
+    piece = loop.target.id if isinstance(loop.target, ast.Name) else piece_from_pair
+    if piece is None:
+        rep.undecided("R05.2", builder.file, builder.qual, "for %s in ..." % norm(loop.target, 30), "the loop variable that holds the layout leaf is not identified")
+        return
     env = iteration_local(rep, "R05.2", builder, loop, sig_ctor)
     P = piece
 
